@@ -846,8 +846,6 @@ Definition map_dtor_at (ge gc : bool) : Prop :=
   run _ _ (mstep ge gc) ops (map0 0 minb thr, map0 1 minb thr) (heap0 f) = (w, h) ->
   map_dtor (sel i w) h' = (h1, ok) -> ok = true /\ next h1 = next h' /\ fuse h1 = fuse h'.
 
-Definition map_safe_at (ge gc : bool) : Prop := map_dtor_at ge gc /\ (if ge && gc then map_full_at ge gc else True).
-
 Lemma map_dtor_any : forall ge gc, map_dtor_at ge gc.
 Proof.
   intros ge gc ops f minb thr w h i h' h1 ok R D.
@@ -855,7 +853,110 @@ Proof.
   eapply map_dtor_no_alloc; [apply mheads2_sel; exact W | exact D].
 Qed.
 
+(* ------------------------------------------------------------------------------------------- *)
+(* the shapes of the two sites only matter in an operation that is refused: an operation that succeeds does exactly the
+   same whatever the shapes are - so histories without a refused step are balanced for the code as found, too *)
+
+Lemma ce_free_ok_eq : forall ge x h h1 x1, ce_free ge x h = (h1, x1, true) -> ce_free true x h = (h1, x1, true).
+Proof.
+  intros ge x h h1 x1 H. unfold ce_free in *. destruct (mfrees x); auto.
+  destruct (alloc (mmgr x) TAG_MVALUE 1 h) as [h2 [v|]]; [|inversion H].
+  destruct (get_ehead (mmgr x) (mfhead x) h2) as [[h3 fh] [|]]; [|inversion H].
+  destruct (alloc (mmgr x) TAG_MNODE 1 h3) as [h4 [nd|]]; [exact H | inversion H].
+Qed.
+
+Lemma create_entry_ok_eq : forall ge x k h h1 x1, create_entry ge x k h = (h1, x1, true) -> create_entry true x k h = (h1, x1, true).
+Proof.
+  intros ge x k h h1 x1 H. rewrite create_entry_stages in *.
+  destruct (if vsize (mtab x) =? 0 then _ else _) as [[ha xa] [|]]; cbn [negb] in *; [|inversion H].
+  destruct (if vsize (mtab xa) <? _ then _ else _) as [[hb xb] [|]]; cbn [negb] in *; [|inversion H].
+  destruct (ce_free ge _ hb) as [[h4 x4] ok4] eqn:CF. destruct ok4; cbn [negb] in H; [|inversion H].
+  rewrite (ce_free_ok_eq _ _ _ _ _ CF). cbn [negb]. exact H.
+Qed.
+
+Lemma map_insert_ok_eq : forall ge x k h h1 x1, map_insert ge x k h = (h1, x1, true) -> map_insert true x k h = (h1, x1, true).
+Proof.
+  intros ge x k h h1 x1 H. unfold map_insert in *. destruct (with_ehead x h) as [[h2 x2] [|]]; auto.
+  destruct (map_find x2 k); auto. eapply create_entry_ok_eq; eauto.
+Qed.
+
+Lemma copy_fill_ok_eq : forall ge es x h h1 x1, copy_fill ge es x h = (h1, x1, true) -> copy_fill true es x h = (h1, x1, true).
+Proof.
+  intros ge es; induction es as [|e r IH]; intros x h h1 x1 H; cbn [copy_fill] in *; auto.
+  destruct (map_insert ge x (ekey e) h) as [[h2 x2] o] eqn:E. destruct o; [|inversion H].
+  rewrite (map_insert_ok_eq _ _ _ _ _ _ E). apply IH. exact H.
+Qed.
+
+Lemma map_copy_ok_eq : forall ge gc rhs m h h1 rhs1 t, map_copy ge gc rhs m h = (h1, rhs1, Some t) ->
+  map_copy true true rhs m h = (h1, rhs1, Some t).
+Proof.
+  intros ge gc rhs m h h1 rhs1 t H. unfold map_copy in *.
+  destruct (vec_insert_end TAG_BUCKET (vempty m) _ h) as [[h2 tb] [|]]; [|inversion H].
+  destruct (with_ehead rhs h2) as [[h3 rhs2] [|]]; [|inversion H].
+  destruct (copy_fill ge (mentries rhs2) _ h3) as [[h4 x1] o] eqn:CF. destruct o; [|inversion H].
+  rewrite (copy_fill_ok_eq _ _ _ _ _ _ CF). exact H.
+Qed.
+
+Lemma map_assign_ok_eq : forall ge gc x rhs h h1 x1 rhs1, map_assign ge gc x rhs h = (h1, x1, rhs1, true) ->
+  map_assign true true x rhs h = (h1, x1, rhs1, true).
+Proof.
+  intros ge gc x rhs h h1 x1 rhs1 H. unfold map_assign in *.
+  destruct (map_copy ge gc rhs (mmgr x) h) as [[h2 rhs2] [t|]] eqn:MC; [|inversion H].
+  rewrite (map_copy_ok_eq _ _ _ _ _ _ _ _ MC). exact H.
+Qed.
+
+Lemma mstep_ok_eq : forall ge gc op w h h1 w1, mstep ge gc op w h = (h1, w1, true) -> mstep true true op w h = (h1, w1, true).
+Proof.
+  intros ge gc op w h h1 w1 H. destruct op; cbn [mstep] in *; auto.
+  - destruct (map_insert ge (sel i w) k h) as [[h2 x2] o] eqn:E. inversion H; subst.
+    rewrite (map_insert_ok_eq _ _ _ _ _ _ E). reflexivity.
+  - destruct (map_assign ge gc (sel i w) (sel (negb i) w) h) as [[[h2 x2] r2] o] eqn:E. inversion H; subst.
+    rewrite (map_assign_ok_eq _ _ _ _ _ _ _ _ E). reflexivity.
+Qed.
+
+(* a history every step of which succeeds *)
+Fixpoint run_ok (ge gc : bool) (ops : list mop) (w : xmap * xmap) (h : heap) : option (xmap * xmap * heap) :=
+  match ops with
+  | [] => Some (w, h)
+  | op :: r => match mstep ge gc op w h with
+               | (h1, w1, true) => run_ok ge gc r w1 h1
+               | (_, _, false) => None
+               end
+  end.
+
+Lemma run_ok_eq : forall ge gc ops w h w1 h1, run_ok ge gc ops w h = Some (w1, h1) ->
+  run _ _ (mstep true true) ops w h = (w1, h1).
+Proof.
+  intros ge gc ops; induction ops as [|op r IH]; intros w h w1 h1 H; cbn in *.
+  - inversion H; reflexivity.
+  - destruct (mstep ge gc op w h) as [[h2 w2] o] eqn:E. destruct o; [|discriminate].
+    rewrite (mstep_ok_eq _ _ _ _ _ _ _ E). apply IH. exact H.
+Qed.
+
+(* for BOTH shapes: a history in which no step was refused (with or without a fuse set), then both destructors:
+   nothing outstanding, no foreign / double free *)
+Lemma map_balanced_any : forall (ge gc : bool) (ops : list mop) (f : option nat) (minb thr : nat) w h, 0 < minb ->
+  run_ok ge gc ops (map0 0 minb thr, map0 1 minb thr) (heap0 f) = Some (w, h) ->
+  forall h1 ok1 h2 ok2, map_dtor (fst w) h = (h1, ok1) -> map_dtor (snd w) h1 = (h2, ok2) ->
+  ok1 = true /\ ok2 = true /\ live h2 = [] /\ bad h2 = false.
+Proof.
+  intros ge gc ops f minb thr w h P R. apply run_ok_eq in R.
+  destruct (map_safe_guarded _ _ _ _ _ _ P R) as [_ [_ D]]. exact D.
+Qed.
+
+Definition map_partial_at (ge gc : bool) : Prop :=
+  forall (ops : list mop) (f : option nat) (minb thr : nat) w h, 0 < minb ->
+  run_ok ge gc ops (map0 0 minb thr, map0 1 minb thr) (heap0 f) = Some (w, h) ->
+  forall h1 ok1 h2 ok2, map_dtor (fst w) h = (h1, ok1) -> map_dtor (snd w) h1 = (h2, ok2) ->
+  ok1 = true /\ ok2 = true /\ live h2 = [] /\ bad h2 = false.
+
+(* the statement for one pair of shapes: the destructors never allocate; histories without a refused step are balanced;
+   and, when both sites are repaired, the full guarantee *)
+Definition map_safe_at (ge gc : bool) : Prop :=
+  map_dtor_at ge gc /\ map_partial_at ge gc /\ (if ge && gc then map_full_at ge gc else True).
+
 Lemma map_safe_any : forall ge gc, map_safe_at ge gc.
 Proof.
-  intros ge gc. split; [apply map_dtor_any|]. destruct ge, gc; cbn; auto. exact map_safe_guarded.
+  intros ge gc. split; [apply map_dtor_any|]. split; [exact (map_balanced_any ge gc)|].
+  destruct ge, gc; cbn; auto. exact map_safe_guarded.
 Qed.
